@@ -11,6 +11,9 @@ EXPLANATION = [
     'C17.ack-bounded: an acknowledgement received on an ERTM channel is accepted only if it covers no more frames than are actually outstanding (same rule as C08.window), so a forged ReqSeq cannot move the acknowledged sequence number past what was sent and wedge the transmitter.',
     'C17.depth-balance: the SDP parser\'s nesting counter is restored on every normal exit of the recursive list parser (path counting).',
     'C17.state-guard: in the L2CAP response handlers of both channel classes (connection, configure, disconnection response) every state-changing effect (_change_state, _disconnect_sync, abort, emit, manager.on_channel_closed) is under a test of self.state: a response that nobody is waiting for leaves an OPEN channel alone.',
+    'C17.loop-contained: in the Hands-Free unsolicited-result loop an exception raised while handling one result code is caught inside the loop body (only the termination marker leaves it): a malformed result code does not end the handling of those that follow.',
+    'C17.live-entry: in Multiplexer.on_mcc_pn the command branch stores a new DLC under the peer-chosen DLCI only on a path where the existing entry for that DLCI was examined and is not an open DLC; the response branch creates one only while this side is opening.',
+    'C17.validate-first: in the AVCTP, AVDTP and AVRCP reassemblers no access that can raise on a short fragment (pdu[k], struct.unpack_from) is executed after a state write unless a length test on the fragment was passed before that write: a truncated fragment cannot leave half-updated assembler state.',
     'C17.lost-write: in the AVCTP, AVDTP and AVRCP reassemblers no path through on_pdu records a state field for the fragment being handled, then calls the self-healing reset() and carries on with the wiped value (the start fragment of a well-formed message after an abandoned one keeps its packet count).',
     'C17.feed-contained: every site that pushes received bytes into the HCI packet parser is inside try/except InvalidPacketError that lets the transport continue (the handler sits inside the receive loop, or the try is itself inside a further loop: a handler outside the loop ends reception), or is a named plain event-loop callback where the escaping exception is only logged.',
     'C17.parser-reset: the push parser consumes what it needs, resets after emission and before raising on an unknown type byte, and contains sink exceptions (same rule as C02.push-parser).',
@@ -402,6 +405,32 @@ def state_reset(ctx):
                     n += 1
                     R.check(resets == set(grp), rule, f'{q} | reset block @{blk[0].lineno}', f'{sorted(grp)} reset together', f'only {sorted(resets)} of {sorted(grp)} is reset here: the next unit is framed against stale state', p.loc(blk[0]))
         R.check(n >= 2, rule, f'{q} | reset sites', f'{n} reset blocks (delivery and error path)', f'only {n} reset block(s) found')
+    # the receiver of an LE credit-based channel keeps waiting only for bytes that are really missing: a `return` that leaves
+    # the accumulated SDU in place is under `len(in_sdu) < 2` (header incomplete) or `len(in_sdu) < 2 + in_sdu_length`
+    # (body incomplete) -- never under a test of a value the peer announces (a length of 0 is a legal announcement)
+    from ..sym import same_ineq
+    fn = p.find('bumble.l2cap.LeCreditBasedChannel.on_pdu')
+    if fn is not None:
+        acc = [n_ for n_ in fn.body if any(isinstance(x, (ast.Assign, ast.AugAssign)) and dotted(x.targets[0] if isinstance(x, ast.Assign) else x.target) == 'self.in_sdu' for x in ast.walk(n_))]
+        start = fn.body.index(acc[0]) if acc else len(fn.body)
+        waits, bad = 0, []
+        for top in fn.body[start + 1:]:
+            for r in [x for x in ast.walk(top) if isinstance(x, ast.Return)]:
+                blk = None
+                par = getattr(r, '_parent', None)
+                for fld in ('body', 'orelse'):
+                    b = getattr(par, fld, None)
+                    if isinstance(b, list) and r in b:
+                        blk = b
+                if blk is not None and any(isinstance(x, ast.Assign) and dotted(x.targets[0]) == 'self.in_sdu' and norm(x.value) == 'None' for x in blk):
+                    continue  # discards the SDU: not a wait
+                waits += 1
+                g = [(t, pol) for t, pol in paths.flat_guards(r)]
+                ok = any(pol and (same_ineq(t, 'len(self.in_sdu) < 2') or same_ineq(t, 'len(self.in_sdu) < 2 + self.in_sdu_length')) for t, pol in g)
+                if not ok:
+                    bad.append(f'line {r.lineno} under {[norm(t) for t, pol in g]}')
+        R.check(waits >= 2 and not bad, rule, 'bumble.l2cap.LeCreditBasedChannel.on_pdu | waits only for missing bytes', f'{waits} waiting exits, each under a comparison of the received size with what is still needed',
+                'the receiver goes on waiting under a test that is not about missing bytes (e.g. an announced SDU length of 0 taken for "length not known yet"): after such a frame every later SDU is appended to a buffer that never completes', p.loc(fn), bad[:3])
 
 
 def all_entries(ctx):
@@ -645,6 +674,116 @@ def state_guard(ctx, rule='C17.state-guard'):
     R.check(n >= 10, rule, 'bumble.l2cap | guarded effects', f'{n} state-changing effects in response handlers', f'only {n} effects found')
 
 
+ITEM_LOOPS = (
+    # (function, call that handles one item, exception that is allowed to end the loop)
+    ('bumble.hfp.HfProtocol.run', 'self.handle_unsolicited', 'HfLoopTermination'),
+)
+
+
+def loop_contained(ctx, rule='C17.loop-contained'):
+    """A long-lived loop that handles one received item per iteration survives an item that makes its handler raise."""
+    R, p = ctx.r, ctx.p
+    for q, handler, stop in ITEM_LOOPS:
+        fn = p.find(q)
+        if fn is None:
+            R.bad(rule, q, 'anchor missing')
+            continue
+        loops = [l for l in ast.walk(fn) if isinstance(l, ast.While) and any(dotted(c.func) == handler for c in calls_in(l))]
+        if len(loops) != 1:
+            R.bad(rule, q, f'{len(loops)} loops around {handler}', p.loc(fn))
+            continue
+
+        class D(paths.Domain):
+            def may_raise(self, call):
+                return 'ItemError' if dotted(call.func) == handler else False
+
+            def is_subclass(self, tag, name):
+                return name in ('Exception', 'BaseException') or tag == name.split('.')[-1]
+        res = paths.run_block(loops[0].body, D(), 0)
+        leaves = sorted(k for k in res if k.startswith('raise') or k in ('break',) or k.startswith('ret'))
+        leaves = [k for k in leaves if stop not in k]
+        R.check(not leaves, rule, f'{q} | {handler}', f'an exception raised while handling one item is caught inside the loop (only {stop} ends it)',
+                f'an exception raised by {handler} for one malformed item leaves the loop ({leaves}): every later item is queued and never handled', p.loc(loops[0]))
+
+
+def live_entry(ctx, rule='C17.live-entry'):
+    """A command from the peer that names an identifier already in use does not silently replace the live object."""
+    R, p = ctx.r, ctx.p
+    fn = p.find('bumble.rfcomm.Multiplexer.on_mcc_pn')
+    if fn is None:
+        R.bad(rule, 'bumble.rfcomm.Multiplexer.on_mcc_pn', 'anchor missing')
+        return
+    stores = [n for n in ast.walk(fn) if isinstance(n, ast.Assign) and isinstance(n.targets[0], ast.Subscript) and dotted(n.targets[0].value) == 'self.dlcs']
+    n = 0
+    for st in stores:
+        g = [(norm(t), pol) for t, pol in paths.flat_guards(st)]
+        if ('c_r', True) not in g:
+            # the response branch: our own request is pending (state test)
+            R.check(any('self.state' in t for t, pol in g), rule, f'bumble.rfcomm.Multiplexer.on_mcc_pn | response store @{st.lineno - fn.lineno}', 'a PN response creates the DLC only while this side is opening one', 'PN response creates a DLC in any state', p.loc(st))
+            continue
+        n += 1
+        key = norm(st.targets[0].slice)
+        ok = any((f'self.dlcs.get({key})' in t or f'{key} in self.dlcs' in t) and not pol for t, pol in g) or any(f'{key} not in self.dlcs' in t and pol for t, pol in g)
+        R.check(ok, rule, 'bumble.rfcomm.Multiplexer.on_mcc_pn | command store', f'a PN command creates a DLC under `{key}` only where the existing entry has been looked at (an open DLC is kept)',
+                f'a PN command for a DLCI that is already open replaces the live DLC in self.dlcs[{key}] with a fresh one that has no consumer: data written afterwards never reaches the application', p.loc(st))
+    R.check(n == 1, rule, 'bumble.rfcomm.Multiplexer.on_mcc_pn | stores', f'{n} command-side store', f'{n} command-side stores found (expected 1)')
+
+
+def validate_first(ctx, rule='C17.validate-first'):
+    """A reassembler does not change its state for a fragment and only then index into the fragment: an access that can
+    raise (pdu[k], struct.unpack_from on the pdu) after a state write is preceded by a length test made before that write.
+    Otherwise a truncated fragment leaves half-updated state behind and the next well-formed message is misjudged."""
+    R, p = ctx.r, ctx.p
+    n = 0
+    for q in LOST_WRITE_SITES:
+        m = p.find(q)
+        ci = p.cls(q.rsplit('.', 1)[0])
+        r = ci.methods.get('reset') if ci else None
+        if m is None or r is None:
+            R.bad(rule, q, 'anchor missing')
+            continue
+        arg = m.args.args[1].arg
+        flds = {dotted(t)[5:] for x in walk_local(r) if isinstance(x, (ast.Assign, ast.AugAssign)) for t in (x.targets if isinstance(x, ast.Assign) else [x.target]) if (dotted(t) or '').startswith('self.') and (dotted(t) or '').count('.') == 1}
+
+        def accesses(node):
+            out = []
+            for x in ast.walk(node):
+                if isinstance(x, ast.Subscript) and isinstance(x.value, ast.Name) and x.value.id == arg and not isinstance(x.slice, ast.Slice):
+                    out.append(x)
+                if isinstance(x, ast.Call) and dotted(x.func) in ('struct.unpack_from', 'struct.unpack') and len(x.args) >= 2 and isinstance(x.args[1], ast.Name) and x.args[1].id == arg:
+                    out.append(x)
+            return out
+        hits = []
+
+        class D(paths.Domain):
+            # (a length test on the fragment was passed before the first state write, a state field was written)
+            def _look(self, node, v):
+                if v[1] and not v[0] and accesses(node):
+                    hits.append(getattr(node, 'lineno', 0))
+
+            def event(self, node, v):
+                if isinstance(node, (ast.Assign, ast.AugAssign, ast.Expr, ast.Return)):
+                    self._look(node, v)
+                if isinstance(node, (ast.Assign, ast.AugAssign)):
+                    for t in (node.targets if isinstance(node, ast.Assign) else [node.target]):
+                        d = dotted(t) or ''
+                        if d.startswith('self.') and d[5:] in flds:
+                            return ((v[0], True),)
+                return (v,)
+
+            def assume(self, atom, truth, v):
+                self._look(atom, v)
+                t = norm(atom)
+                if (f'len({arg})' in t or t == arg) and not v[1]:
+                    return ((True, v[1]),)
+                return (v,)
+        paths.run(m, D(), (False, False))
+        n += 1
+        R.check(not hits, rule, q, 'no raising access into the fragment follows a state write that was not preceded by a length test',
+                f'state is updated for a fragment before the fragment is known to be long enough (raising access at line {sorted(set(hits))[:3]}): a truncated fragment leaves the counter / fields half-updated and the well-formed message that follows is rejected', p.loc(m))
+    R.check(n == len(LOST_WRITE_SITES), rule, 'reassemblers (validate first)', f'{n} reassemblers analysed', f'only {n} found')
+
+
 def depth_balance(ctx, rule='C17.depth-balance'):
     """The SDP parser's nesting counter returns to its entry value on every normal exit of the recursive step."""
     R, p = ctx.r, ctx.p
@@ -697,6 +836,9 @@ RULES = [
     ('C17.depth-balance', depth_balance),
     ('C17.feed-contained', feed_contained),
     ('C17.lost-write', lost_write),
+    ('C17.validate-first', validate_first),
+    ('C17.live-entry', live_entry),
+    ('C17.loop-contained', loop_contained),
     ('C17.state-guard', state_guard),
     ('C17.parser-reset', parser_reset),
     ('C17.response-routing', response_routing),
